@@ -183,6 +183,29 @@ impl Sut for PStrSut {
                     v.push(b);
                 }
             }
+            // (small buffers only)
+        }
+        if self.size > self.w + self.pmax() {
+            // payload area beyond the prefix maximum: multi-byte characters straddling the cap
+            let pay = self.size - self.w;
+            for ch in ["\u{e9}", "\u{20ac}", "\u{1f600}"] {
+                let cb = ch.as_bytes();
+                for back in 1..cb.len() {
+                    let mut b = vec![b'a'; self.size];
+                    let start = self.w + self.pmax() - back;
+                    if start + cb.len() <= self.size {
+                        b[start..start + cb.len()].copy_from_slice(cb);
+                        for l in [pay.min(self.pmax()), 0] {
+                            let le = (l as u64).to_le_bytes();
+                            b[..self.w].copy_from_slice(&le[..self.w]);
+                            v.push(b.clone());
+                        }
+                    }
+                }
+            }
+        }
+        if self.byte_inits && self.size >= self.w {
+            let pay = self.size - self.w;
             // a recorded length larger than the buffer (load must panic, not read)
             let mut b = vec![0u8; self.size];
             let le = ((pay + 1) as u64).to_le_bytes();
